@@ -5,7 +5,15 @@ use super::*;
 /// MT920 field 12: the message types that may be requested (T88)
 const VALID_12: &[&str] = &["940", "941", "942", "950"];
 /// MT935 field 23, subfield Function (T26)
-const VALID_23_FUNCTION: &[&str] = &["BASE", "CALL", "COMMERCIAL", "CURRENT", "DEPOSIT", "NOTICE", "PRIME"];
+const VALID_23_FUNCTION: &[&str] = &[
+    "BASE",
+    "CALL",
+    "COMMERCIAL",
+    "CURRENT",
+    "DEPOSIT",
+    "NOTICE",
+    "PRIME",
+];
 /// currencies the generator uses that are ISO 4217 codes (anything else: T52 is left undetermined)
 const KNOWN_ISO: &[&str] = &["USD", "USN", "EUR", "GBP", "JPY", "CHF"];
 
@@ -53,11 +61,12 @@ fn breaks_t26(content: &str) -> bool {
         return true;
     }
     let rest = &cs[3..];
-    let (days, function): (bool, String) = if rest.len() >= 2 && rest[..2].iter().all(|c| c.is_ascii_digit()) {
-        (true, rest[2..].iter().collect())
-    } else {
-        (false, rest.iter().collect())
-    };
+    let (days, function): (bool, String) =
+        if rest.len() >= 2 && rest[..2].iter().all(|c| c.is_ascii_digit()) {
+            (true, rest[2..].iter().collect())
+        } else {
+            (false, rest.iter().collect())
+        };
     if !VALID_23_FUNCTION.contains(&function.as_str()) {
         return true;
     }
@@ -74,7 +83,8 @@ fn parts_37h(content: &str) -> (char, bool, bool) {
         Some(r) => (true, r.to_string()),
         None => (false, rest),
     };
-    let zero = num.chars().any(|c| c.is_ascii_digit()) && num.chars().filter(|c| c.is_ascii_digit()).all(|c| c == '0');
+    let zero = num.chars().any(|c| c.is_ascii_digit())
+        && num.chars().filter(|c| c.is_ascii_digit()).all(|c| c == '0');
     (ind, sign, zero)
 }
 
@@ -169,7 +179,12 @@ const AMT_POOL: &[&str] = &["100,", "250,50", "1000,", "99,99", "1,"];
 
 pub fn content_hook(mt: &str, tag: &str, src: &mut crate::choice::Src) -> Option<String> {
     match (mt, tag) {
-        ("920", "12") => Some(src.pick(&["940", "941", "942", "942", "942", "950", "103", "999", "000"]).to_string()),
+        ("920", "12") => Some(
+            src.pick(&[
+                "940", "941", "942", "942", "942", "950", "103", "999", "000",
+            ])
+            .to_string(),
+        ),
         ("920", "34F") => {
             let c = *src.pick(&["USD", "USD", "USD", "USN", "EUR", "USD"]);
             let ind = *src.pick(&["", "D", "C", "D", "C"]);
@@ -218,7 +233,22 @@ pub fn content_hook(mt: &str, tag: &str, src: &mut crate::choice::Src) -> Option
             ])
             .to_string(),
         ),
-        ("935", "37H") => Some(src.pick(&["C2,5", "D3,75", "CN0,25", "DN1,", "C0,", "D0,00", "CN0,", "DN0,00", "CN00,0", "CN0,000001", "D0,000001"]).to_string()),
+        ("935", "37H") => Some(
+            src.pick(&[
+                "C2,5",
+                "D3,75",
+                "CN0,25",
+                "DN1,",
+                "C0,",
+                "D0,00",
+                "CN0,",
+                "DN0,00",
+                "CN00,0",
+                "CN0,000001",
+                "D0,000001",
+            ])
+            .to_string(),
+        ),
         _ => None,
     }
 }
